@@ -115,3 +115,15 @@ func TestC15_history(t *testing.T) {
 	e2Check(t, "C15", "history", 1500, e2RuleCommon+"oracle: JobConfig status == authoritative queued/active sets, counts and state at quiescence; lastScheduled/lastExecuted monotone on every write and >= every existing Job; non-trivial = a Job was removed during the run; distinct = distinct trace",
 		p, []string{"C15"}, func(l []string) bool { return hasAny(l, "job-removed") })
 }
+
+func TestC09_history(t *testing.T) {
+	p := profileWith(baseProfile, func(p *e2Profile) {
+		p.crashes, p.faults, p.foreignPods = true, true, true
+		p.weights["k-finish"] = 10
+		p.weights["deletePod"] = 2
+	})
+	e2Check(t, "C09", "history", 1500, e2RuleCommon+"with injected API faults (rejected, timeout, conflict, applied-but-reported-failed) by call signature, armed crashes at the k-th call of a reconcile, restarts, and foreign Pods planted on future task names; oracle: listing / no-duplicate-attempt / refs-never-dropped / never-lost-while-alive monitors + fixpoint; non-trivial = a fault, crash or foreign Pod occurred; distinct = distinct trace",
+		p, []string{"C09"}, func(l []string) bool {
+			return hasAny(l, "crashed", "restart", "foreign-pod", "fault:reject", "fault:timeout", "fault:conflict", "fault:commit-timeout")
+		})
+}
